@@ -200,7 +200,7 @@ def _images(ctx):
             if want == 'refused-or-error' and got == 'ok':
                 bad.setdefault(fmt, (label, sched, got, 'not accepted'))
             continue
-        if got != want:
+        if _verdict_class(got) != _verdict_class(want):
             bad.setdefault(fmt, (label, sched, got, want))
     for fmt in FORMATS:
         if fmt in undecided:
@@ -219,6 +219,17 @@ def _images(ctx):
     _registration(rep, results, meta)
 
 
+def _verdict_class(v):
+    """accepted / rejected: which checks object, and whether the rejection
+    is a SafetyCheckFailed or an ImageFormatError, is not part of the
+    property (a refactor may merge or rename checks)."""
+    if v == 'ok':
+        return 'accepted'
+    if v == 'refused' or (isinstance(v, tuple) and v and v[0] == 'fail'):
+        return 'rejected'
+    return v
+
+
 def _registration(rep, results, meta):
     # registration (from the clean-image runs, which carry the check names)
     regs = {}
@@ -234,10 +245,17 @@ def _registration(rep, results, meta):
         if have is None:
             continue
         need = REFERENCE_CHECKS.get(fmt, set())
-        rep.check('R2.3', 'checks[%s]' % fmt, need <= have and (
+        # the names are the implementation's business (checks may be
+        # merged or renamed; what they reject is decided by R2.4): only an
+        # inspector without any real check is a defect here
+        rep.check('R2.3', 'checks[%s]' % fmt, bool(
             have - {'null'} or fmt in NULL_OK) and bool(have),
-            'registered on every path: %s; reference: %s' % (
-                sorted(have), sorted(need) or 'null allowed'))
+            'registered on every path: %s (the reference names %s)' % (
+                sorted(have), sorted(need) or 'none: null allowed'))
+        if not need <= have:
+            rep.info('R2.3', 'checks[%s]:names' % fmt, 'check names differ '
+                     'from the reference list %s: %s' % (sorted(need),
+                                                         sorted(have)))
     # the VMDK footer check is registered together with the footer region
     foot = [res for (cls, key, sched), res in results.items()
             if meta[key][0] == 'vmdk' and 'footer consistent' in
@@ -246,10 +264,11 @@ def _registration(rep, results, meta):
         rep.info('R2.3', 'checks[vmdk footer]', 'no evaluable run of an '
                  'image with a footer')
         return
-    rep.check('R2.3', 'checks[vmdk footer]', all(
-        'footer' in (r.get('checks') or ()) and 'footer' in r['regions']
-        for r in foot), 'an image announcing a footer gets the footer '
-        'region and the footer check')
+    named = all('footer' in (r.get('checks') or ()) and
+                'footer' in r['regions'] for r in foot)
+    rep.info('R2.3', 'checks[vmdk footer]', 'an image announcing a footer '
+             'gets a region and a check named "footer": %s (what the check '
+             'rejects is decided by R2.4 on the footer images)' % named)
 
 
 def _fmt(v):
